@@ -32,6 +32,11 @@ def gen_content(rng, max_vars=7, max_depth=3, dashed=True, paths=True, free_vers
             v["arches"] = sorted(subset(rng, pools.ARCHES, 1, 4))
             if dashed and rng.random() < 0.2:
                 pre = pick(rng, DASH_PREFIXES)
+                tops_plain = [x["id"] for x in K["vars"] if x["parent"] is None and not x["dashed"]]
+                if tops_plain and rng.random() < 0.5:
+                    # the dashed UID borrows the name of a variant that IS part of the compose ("Server" next to
+                    # "Server-Tools"): it then sorts between that variant and its children
+                    pre = pick(rng, tops_plain)
                 v["id"] = pre + vid_name
                 v["uid"] = pre + "-" + vid_name
                 v["dashed"] = True
